@@ -47,7 +47,7 @@ static void gen_hbrb(int rd, int full) {
     /* family X: other legal spellings: "1P," with a comma, repeat count omitted "(E16.8)", "(1PE16.8)" */
     for (int li = 0; li < 3; li++) for (int dc = 0; dc < 2; dc++) for (int sp = 0; sp < 3; sp++) for (int wi = 0; wi < 3; wi++) for (int a = 0; a < 2; a++) {
         char let = "EDF"[li]; int w = WQ[wi];
-        if (!full && (wi != 1 || (dc && li != 1))) continue;
+        if (!full && (wi != 1 || (dc && li != 1) || (sp == 0 && !a) || (sp == 2 && li))) continue;
         if (sp > 0 && a) continue;
         L = B; set_val(&L, let, sp == 0 ? 2 : sp == 2 ? 1 : 0, sp != 1, dc, dc, w, sp == 0 ? (a ? 80 / w : 1) : 0, 0); push(&L);
     }
@@ -71,7 +71,7 @@ static void gen_hbrb(int rd, int full) {
     fam_close("header");
     /* family T: trailing blanks trimmed from every line (what editors and transfer tools do to card images; a Fortran
      * formatted read pads short records with blanks).  Crash-prone, therefore a small product; quick: matrices up to 2 x 2 */
-    for (int ti = 0; ti < NTITLE_HB; ti++) for (int rhs = 0; rhs < (rd == RD_HB ? 2 : 1); rhs++) for (int ds = 0; ds < 2; ds++) {
+    for (int ti = 0; ti < NTITLE_HB; ti++) for (int rhs = 0; rhs < (rd == RD_HB ? 2 : 1); rhs++) for (int ds = 0; ds < 1; ds++) {
         L = B; L.title = ti; L.pad = PAD_T; L.rhs = rhs; L.maxdim = full ? 0 : 2;
         if (ds == 1) { L.ptr.k = 8; L.ptr.w = 10; L.ind.k = 40; L.ind.w = 2; set_val(&L, 'D', 1, 1, 0, 0, 25, 3, 0); }
         push(&L);
